@@ -246,6 +246,8 @@ func checkC11(c *Ctx) {
 	})
 	c11Bounds(c)
 	c11R5(c)
+	c.Rule("C11.R6", "a repeated REQ cannot crash the muxer: every send on Unreliable.sendQueue from the receive path lies in a critical section of lifecycleMu that found the tube not closed (see C16.R7) (E1 + E5)")
+	unreliableSendRule(c, "C11.R6")
 	c.Rule("C11.R3", "proportionate allocation: every make([]T, n) in the application-protocol decoders whose size derives from bytes read from the peer is bounded by one datagram (65535) at the allocation (E3 on the E2 engine); reading through a growing buffer (io.CopyN) is the accepted idiom for larger fields")
 	rangeRule(c, "C11.R3", pkgFuncs(P, true, "codex", "userauth", "portforwarding", "common", "authgrants", "certs", "tubes"), allocObs,
 		"a peer-chosen length field sizes an allocation without a bound: a few bytes on the wire can make the reader allocate gigabytes", "peer-sized allocations in the decoders", 3)
